@@ -1,7 +1,7 @@
 (* Property C03 — each column value equals the scalar rule applied to that row's inputs;
    the dtype is the declared one and never depends on the data. *)
 From Coq Require Import ZArith QArith Qcanon Bool String List.
-From GettsimModel Require Import Num Val Column.
+From GettsimModel Require Import Num Val Ast Eval PolicyEnv Column Dag Table TableSound.
 Import ListNotations.
 
 (* with the declared dtype handed to numpy.vectorize: for EVERY rule f, EVERY table, EVERY row:
@@ -35,3 +35,15 @@ Theorem C03_inference_refuted :
   /\ vectorize_gen (Some TFloat) unstable_rule 2 [CBool [true; false]] = Ok (CFloat [xz 0; XFin (qfrac 7 20)]).
 Proof. exact vectorize_inferred_refuted. Qed.
 Print Assumptions C03_inference_refuted.
+
+(* the same at the level of the engine (Table.sem): the column of a rule node (no statutory rounding)
+   has the declared dtype whatever the data, and cell i is the rule applied to row i's arguments,
+   parameters partialled in by name, cast to the declared dtype *)
+Theorem C03_engine_rule_node : forall ft P rounding nrows n py f t cs c,
+  d_kind n = KRule py false None -> flookup py ft = Some f -> annot_otype (f_ret f) = Some t -> cs <> [] ->
+  sem ft P rounding nrows n cs = Ok c ->
+  col_dtype c = t /\
+  forall i row, nth_error (rows_of nrows cs) i = Some row ->
+    exists args v w, row_args P f (d_args n) row = Ok args /\ call_rule ft f args = Ok v /\ cast t v = Ok w /\ nth_error (col_vals c) i = Some w.
+Proof. exact rule_node_cells. Qed.
+Print Assumptions C03_engine_rule_node.
